@@ -5,6 +5,9 @@ package) reaches an estimator root, it records
 
 * the ``__init__`` signature and, per parameter, how the constructor treats it:
   ``SV`` stored verbatim (``self.p = p`` is the only store and ``p`` is never rebound),
+  ``SC f`` stored through a one-argument call ``self.p = f(p)`` (f = resolved function, with a hash
+  of its source when it is an sktime function: acceptable only if f is on the reviewed list of
+  validators that return their argument unchanged or raise, coq/C04/Known.v),
   ``SM txt`` stored modified, ``SF parent q`` forwarded to the ``__init__`` of a parent class of the
   table as its parameter ``q``, ``SX q`` forwarded to a scikit-learn parent as keyword ``q``,
   ``SN`` not stored at all;  ``*args`` / ``**kwargs`` are listed as parameters ``*`` / ``**``;
@@ -414,6 +417,8 @@ class Table:
                     out.append((p, ("SM", "overwritten by %s.__init__" % over)))
                 elif len(st) == 1 and isinstance(st[0], ast.Name) and st[0].id == p and not isreb:
                     out.append((p, ("SV",)))
+                elif len(st) == 1 and not isreb and self._validator_call(k, st[0], p) is not None:
+                    out.append((p, ("SC", self._validator_call(k, st[0], p))))
                 else:
                     txt = " | ".join("?" if v is None else ast.unparse(v) for v in st)
                     if isreb:
@@ -437,6 +442,33 @@ class Table:
         if a.kwarg:
             out.append(("**", ("SN",)))
         return out
+
+    def _validator_call(self, k, v, p):
+        """`f(p)` with f a plain name imported into the module and p the only argument: the identity
+        of f ("module.name#hash-of-its-ast" for an sktime function, "ext:module.name" otherwise),
+        else None."""
+        if not (isinstance(v, ast.Call) and isinstance(v.func, ast.Name) and not v.keywords
+                and len(v.args) == 1 and isinstance(v.args[0], ast.Name) and v.args[0].id == p):
+            return None
+        modname, name, seen = k[0], v.func.id, set()
+        while True:
+            if (modname, name) in seen:
+                return None
+            seen.add((modname, name))
+            m = self.mods.get(modname)
+            if m is None:
+                return None if modname.startswith("sktime") else "ext:%s.%s" % (modname, name)
+            fns = [x for x in _toplevel(m.tree.body) if isinstance(x, ast.FunctionDef) and x.name == name]
+            if len(fns) == 1:
+                import hashlib
+                return "%s.%s#%s" % (modname, name,
+                                     hashlib.sha1(ast.dump(fns[0]).encode()).hexdigest()[:10])
+            if fns:
+                return None
+            imp = m.imports.get(name)
+            if not imp or imp[0] != "sym":
+                return None
+            modname, name = imp[1], imp[2]
 
     def _attrs_stored_by_init(self, k, seen=()):
         """Attribute names assigned on self by the __init__ of class k and, through its parent
@@ -849,6 +881,8 @@ def cstr(s):
 def _store(st):
     if st[0] == "SM":
         return "(SM %s)" % cstr(st[1])
+    if st[0] == "SC":
+        return "(SC %s)" % cstr(st[1])
     if st[0] == "SF":
         return "(SF %s %s)" % (cstr(st[1]), cstr(st[2]))
     if st[0] == "SX":
@@ -901,7 +935,7 @@ def translate(repo):
     return {"C04/Gen.v": to_coq(extract(repo))}
 
 
-def deviations(table):
+def deviations(table, validators=()):
     """Python mirror of the Coq predicates of coq/C04/Table.v with an empty exception list (used to
     generate the `*_static` cases; the verdict that counts is the Coq theorem over the same table).
 
@@ -915,6 +949,9 @@ def deviations(table):
         """None if ok, else (root class, root param, how)."""
         if st[0] == "SV":
             return None
+        if st[0] == "SC":
+            return None if st[1] in validators else (
+                cls, p, "stored through a call that is not a reviewed identity-or-raise validator: " + st[1])
         if st[0] == "SX":
             return None if st[1] == p else (cls, p, "forwarded to scikit-learn as %r" % st[1])
         if st[0] == "SF":
